@@ -2093,6 +2093,20 @@ func emptyIface(t types.Type) bool {
 
 // typeTerm is the dynamic-type tag of a static type. Type parameters are symbolic integers
 // (two type parameters may denote the same type), composite types are built from their parts.
+// mapTag: the dynamic-type tag of map[K]V — composite, disjoint from slice (≡1 mod 4) and pointer (≡2) tags
+func (fc *fnCtx) mapTag(st *State, k, v string) string {
+	fc.declareFun(st, "tid_map", "(Int Int) Int")
+	t := app("tid_map", k, v)
+	fact := fmt.Sprintf("(and (> %s 1000000) (= (mod %s 4) 3))", t, t)
+	for _, x := range st.pc {
+		if x == fact {
+			return t
+		}
+	}
+	st.pc = append(st.pc, fact)
+	return t
+}
+
 func (fc *fnCtx) typeTerm(st *State, t types.Type) string {
 	switch x := t.(type) {
 	case *types.TypeParam:
@@ -2116,8 +2130,7 @@ func (fc *fnCtx) typeTerm(st *State, t types.Type) string {
 	case *types.Pointer:
 		return fmt.Sprintf("(+ 1000002 (* 4 %s))", fc.typeTerm(st, x.Elem()))
 	case *types.Map:
-		fc.declareFun(st, "tid_map", "(Int Int) Int")
-		return app("tid_map", fc.typeTerm(st, x.Key()), fc.typeTerm(st, x.Elem()))
+		return fc.mapTag(st, fc.typeTerm(st, x.Key()), fc.typeTerm(st, x.Elem()))
 	case *types.Named:
 		if x.TypeArgs() != nil && x.TypeArgs().Len() > 0 {
 			fn := "tid_gen." + sanitize(x.Obj().Name())
@@ -2127,7 +2140,20 @@ func (fc *fnCtx) typeTerm(st *State, t types.Type) string {
 				sig = append(sig, "Int")
 			}
 			fc.declareFun(st, fn, "("+strings.Join(sig, " ")+") Int")
-			return app(fn, as...)
+			t := app(fn, as...)
+			// tags of instantiated generic types: above the basic tags, disjoint from slice/pointer/map tags
+			fact := fmt.Sprintf("(and (> %s 1000000) (= (mod %s 4) 0))", t, t)
+			have := false
+			for _, x := range st.pc {
+				if x == fact {
+					have = true
+					break
+				}
+			}
+			if !have {
+				st.pc = append(st.pc, fact)
+			}
+			return t
 		}
 	}
 	return fmt.Sprint(fc.e.typeID(typeKey(t)))
